@@ -138,6 +138,16 @@ CHECKS = {
         'Line / column of the exception are checked on the implementation only. RecursionError for very deep nesting is outside the quantifier (depth <= 3). Print Assumptions: closed under the global context.',
    technique='Coq proof (exception-safety predicate closed under the parser combinators, induction on nesting fuel) + mutation-based correspondence',
    design='DESIGN.md §3 C09'),
+ 'C10': dict(
+   text='Machine-checked proof (Coq) over a state-machine model of Grid\'s validators on real values, whose kind tests (the isinstance list of Grid._detect_or_validate, the if/elif ladders of both dumpers, '
+        'the gated branches of the JSON reader) are REGENERATED from the source on every run: after ANY history of stores (grid metadata, column metadata through the bound MetadataObject or as a raw mapping, add_item, append, insert, '
+        'setitem, extend) a grid whose version is judged pre-3.0 holds no 3.0-only value anywhere; an unversioned grid reports 3.0 as soon as one is stored; a grid with an explicit pre-3.0 version refuses it with ValueError and is unchanged; '
+        'Grid, both writers (per kind, from their ladders) and the writer / JSON reader models refuse exactly NA, list, dict, nested grid, XStr; each kind of value takes its own branch of both ladders. '
+        'All five decisions are the one function pre_3_0 = nearest(version) < 3.0 (pinned by the translator). Tied by the regenerated tables vs the implementation per kind, lock-step histories vs hszinc.Grid, and the writer / reader models on gated grids and documents.',
+   note='Stores into caller-owned objects the grid does not know about are outside the model (after fix c61c600 Grid binds column metadata to its validator on store). The ZINC reader\'s gate is its 2.0 grammar (no 3.0 alternatives; C09_v3_brackets_rejected_under_2_0) - '
+        'its agreement with the others on non-official versions is checked on the implementation (17 version strings x 5 deciders). extend() is non-atomic in code and model alike. Print Assumptions: closed under the global context.',
+   technique='translator-regenerated kind tables + Coq invariant proof by induction over the store history + lock-step correspondence',
+   design='DESIGN.md §3 C10'),
 }
 PENDING = {}
 for i in range(1, 21):
